@@ -2,11 +2,26 @@ import PsyVerif.Model.Directives
 import PsyVerif.Gen.Directives
 /-! # C10 — Directive trees produced by accepted transformations are valid
 
-Model: `PsyVerif/Model/Directives.lean` (`writer` mirrors the `validate_global_constraints` of every
-OpenMP/OpenACC directive node as run by the PSyIR visitor, WITH the fixes `fixes/C10-*.patch`).
-Quantification: every statement forest over the modelled node kinds — any depth, any width, any
-collapse values — hence every tree any history of transformations can build, without modelling the
-transformations themselves. -/
+Model: `PsyVerif/Model/Directives.lean`.
+* `writer` mirrors the `validate_global_constraints` of every OpenMP/OpenACC directive node
+  (parallel, do, parallel do, teams distribute parallel do, loop, single(nowait), master, taskloop,
+  dynamic task, taskwait, target, atomic, simd, declare target; acc parallel, kernels, data, loop,
+  atomic, enter data, update, routine) as run by the PSyIR visitor, with the outcome
+  accept / GenerationError / IndexError.  MODE: the code WITH the fixes d0e6145, 053c279 (committed)
+  and `fixes/C10-collapse-rectangular`, `C10-omp-acc-mixing`, `C10-teams-simd-region-nesting`,
+  `C10-acc-standalone-placement` (candidates).
+* `guardedValid` / `specValid` are the OpenMP 4.5/5.0 and OpenACC 2.6 nesting, loop-association,
+  rectangularity and no-mixing rules (each clause cites its source in the model file).
+* `applyOp` / `Reachable` model the SHAPE of the directive-inserting transformations.
+
+Quantification: `C10_writer_guards` — every statement forest over the modelled node kinds (any depth,
+width, collapse values, positions), hence every tree any history of transformations can build,
+without using the transformation model; `C10_total` — every tree reachable from a directive-free
+program by any sequence of `applyOp` steps (any length).
+
+Tie to the code: `Gen/Directives.lean` (truth table of the real checks on a catalogue, regenerated
+on every run, `C10_table_agrees`), and the harness correspondence on random histories/forests for
+`writer` and, step by step, for `applyOp`. -/
 namespace C10
 
 /-! ## helper lemmas -/
@@ -28,26 +43,96 @@ theorem closelyIn_any {p : Kind → Bool} {ctx : Ctx} (h : closelyIn p ctx = tru
     · exact Or.inl h
     · exact Or.inr (ih h)
 
-theorem not_closelyIn_of_not_any {p : Kind → Bool} {ctx : Ctx} (h : ctx.any p = false) :
-    closelyIn p ctx = false := by
-  cases hc : closelyIn p ctx with
-  | false => rfl
-  | true => rw [closelyIn_any hc] at h; cases h
-
 theorem any_mono {p q : Kind → Bool} (hpq : ∀ a, p a = true → q a = true) {ctx : Ctx}
     (h : ctx.any p = true) : ctx.any q = true := by
   rw [List.any_eq_true] at h ⊢
   obtain ⟨a, ha, hp⟩ := h
   exact ⟨a, ha, hpq a hp⟩
 
-theorem any_false_mono {p q : Kind → Bool} (hpq : ∀ a, p a = true → q a = true) {ctx : Ctx}
-    (h : ctx.any q = false) : ctx.any p = false := by
-  cases hc : ctx.any p with
-  | false => rfl
-  | true => rw [any_mono hpq hc] at h; cases h
-
 theorem plainPar_isOmpPar (a : Kind) (h : isPlainPar a = true) : isOmpPar a = true := by
   cases a <;> simp_all [isPlainPar, isOmpPar]
+
+theorem single_isSerial (a : Kind) (h : isSingle a = true) : isSerial a = true := by
+  cases a <;> simp_all [isSingle, isSerial]
+
+/-! ### the context invariant: every ancestor passed its own ancestor checks -/
+
+/-- the part of `nodeOut` of an ancestor that later checks rely on -/
+def ctxGuard (rest : Ctx) (a : Kind) : Bool :=
+  match a with
+  | .ompTask => rest.any isSingle
+  | .ompSingle _ | .ompMaster => rest.any isPlainPar
+  | .ompTaskloop => rest.any isSerial
+  | _ => true
+
+def ctxOK : Ctx → Bool
+  | [] => true
+  | a :: rest => ctxGuard rest a && ctxOK rest
+
+theorem taskPlace_single {ctx : Ctx} (h : taskPlace ctx = true) : ctx.any isSingle = true := by
+  induction ctx with
+  | nil => simp [taskPlace] at h
+  | cons a rest ih =>
+    simp only [List.any_cons, Bool.or_eq_true]
+    cases a <;> simp_all [taskPlace, isSingle]
+
+theorem nodeOut_ctxGuard {ar pos ctx k body} (h : nodeOut ar pos ctx k body = .accept) :
+    ctxGuard ctx k = true := by
+  cases k <;> simp only [ctxGuard] <;> simp only [nodeOut] at h
+  · have := guard_accept h; simp only [Bool.and_eq_true] at this; exact this.1.1
+  · have := guard_accept h; simp only [Bool.and_eq_true] at this; exact this.1.1
+  · have := guard_accept h; simp only [Bool.and_eq_true] at this; exact this.1
+  · exact taskPlace_single (guard_accept h)
+
+theorem ctxOK_serial_par {ctx : Ctx} (ok : ctxOK ctx = true) (h : ctx.any isSerial = true) :
+    ctx.any isPlainPar = true := by
+  induction ctx with
+  | nil => simp at h
+  | cons a rest ih =>
+    simp only [ctxOK, Bool.and_eq_true] at ok
+    simp only [List.any_cons, Bool.or_eq_true] at h ⊢
+    rcases h with h | h
+    · right
+      cases a <;> simp_all [isSerial, ctxGuard]
+    · exact Or.inr (ih ok.2 h)
+
+theorem ctxOK_task_serial {ctx : Ctx} (ok : ctxOK ctx = true) (h : ctx.any isTask = true) :
+    ctx.any isSerial = true := by
+  induction ctx with
+  | nil => simp at h
+  | cons a rest ih =>
+    simp only [ctxOK, Bool.and_eq_true] at ok
+    simp only [List.any_cons, Bool.or_eq_true] at h ⊢
+    rcases h with h | h
+    · right
+      have ha : a = .ompTask := by cases a <;> simp_all [isTask]
+      subst ha
+      have := ok.1
+      simp only [ctxGuard] at this
+      exact any_mono single_isSerial this
+    · exact Or.inr (ih ok.2 h)
+
+/-- If no ancestor satisfies `p`, every serial ancestor would satisfy `p`, and `q` only adds explicit
+tasks to `p`, then the node is not closely nested in a `q` region. -/
+theorem no_closely {p q : Kind → Bool} {ctx : Ctx} (ok : ctxOK ctx = true)
+    (hq : ∀ a, q a = true → p a = true ∨ isTask a = true)
+    (hs : ∀ a, isSerial a = true → p a = true)
+    (hp : ctx.any p = false) : closelyIn q ctx = false := by
+  cases hc : closelyIn q ctx with
+  | false => rfl
+  | true =>
+    exfalso
+    have hany := closelyIn_any hc
+    rw [List.any_eq_true] at hany
+    obtain ⟨a, ha, hqa⟩ := hany
+    rw [List.any_eq_false] at hp
+    rcases hq a hqa with h | h
+    · exact hp a ha h
+    · have : ctx.any isTask = true := List.any_eq_true.mpr ⟨a, ha, h⟩
+      have := ctxOK_task_serial ok this
+      rw [List.any_eq_true] at this
+      obtain ⟨b, hb, hsb⟩ := this
+      exact hp b hb (hs b hsb)
 
 theorem singleLoop_assoc {body : Forest} (h : singleLoop body = true) : assocLoops 1 body = true := by
   unfold singleLoop at h
@@ -55,60 +140,94 @@ theorem singleLoop_assoc {body : Forest} (h : singleLoop body = true) : assocLoo
   · simp [assocLoops]
   · cases h
 
-/-- `_validate_collapse_value` accepting means the collapsed loops are perfectly nested. -/
-theorem collapseOmp_assoc (n : Nat) (body : Forest) (h : collapseOmp n body = .accept) :
+/-- `_validate_collapse_value` accepting means the collapsed loops are perfectly nested … -/
+theorem collapseOmp_assoc (n d : Nat) (body : Forest) (h : collapseOmp n d body = .accept) :
     assocLoops n body = true := by
-  fun_induction collapseOmp n body with
+  fun_induction collapseOmp n d body with
   | case1 => simp [assocLoops]
   | case2 => cases h
-  | case3 n d body hne ih => simp only [assocLoops]; exact ih h
+  | case3 n d dep body hr hne ih => simp only [assocLoops]; exact ih h
   | case4 => cases h
+  | case5 => cases h
 
-theorem collapseAcc_assoc (n : Nat) (body : Forest) (h : collapseAcc n body = true) :
+/-- … and form a rectangular iteration space (a). -/
+theorem collapseOmp_rect (n d : Nat) (body : Forest) (h : collapseOmp n d body = .accept) :
+    rectNest n d body = true := by
+  fun_induction collapseOmp n d body with
+  | case1 => simp [rectNest]
+  | case2 => cases h
+  | case3 n d dep body hr hne ih =>
+    simp only [rectNest, Bool.and_eq_true]; exact ⟨hr, ih h⟩
+  | case4 => cases h
+  | case5 n d f hf =>
+    cases h
+
+theorem collapseAcc_assoc (n d : Nat) (body : Forest) (h : collapseAcc n d body = true) :
     assocLoops n body = true := by
-  fun_induction collapseAcc n body with
+  fun_induction collapseAcc n d body with
   | case1 => simp [assocLoops]
-  | case2 n d body ih => simp only [assocLoops]; exact ih h
+  | case2 n d dep body ih =>
+    simp only [Bool.and_eq_true] at h
+    simp only [assocLoops]; exact ih h.2
+  | case3 => cases h
+
+theorem collapseAcc_rect (n d : Nat) (body : Forest) (h : collapseAcc n d body = true) :
+    rectNest n d body = true := by
+  fun_induction collapseAcc n d body with
+  | case1 => simp [rectNest]
+  | case2 n d dep body ih =>
+    simp only [Bool.and_eq_true] at h
+    simp only [rectNest, Bool.and_eq_true]; exact ⟨h.1, ih h.2⟩
   | case3 => cases h
 
 /-- single loop + collapse check ⇒ `max c 1` perfectly nested loops. -/
-theorem assoc_of_single_collapse {c : Nat} {body : Forest} (hs : singleLoop body = true)
-    (hc : collapseOmp c body = .accept) : assocLoops (max c 1) body = true := by
+theorem assoc_of_single_collapse {c d : Nat} {body : Forest} (hs : singleLoop body = true)
+    (hc : collapseOmp c d body = .accept) : assocLoops (max c 1) body = true := by
   cases c with
   | zero => exact singleLoop_assoc hs
   | succ c =>
     have : max (c + 1) 1 = c + 1 := by omega
-    rw [this]; exact collapseOmp_assoc _ _ hc
+    rw [this]; exact collapseOmp_assoc _ _ _ hc
 
-/-- One node: what `validate_global_constraints` accepts satisfies the core rules. -/
-theorem nodeOut_core (ctx : Ctx) (k : Kind) (body : Forest) (h : nodeOut ctx k body = .accept) :
-    nodeCore ctx k body = true := by
+theorem max_one_cases (c : Nat) : (c = 0 ∧ max c 1 = 1) ∨ max c 1 = c := by omega
+
+/-- One node: what `validate_global_constraints` accepts satisfies the nesting/association rules
+(given that the ancestors passed their own checks). -/
+theorem nodeOut_core (ar : Env) (pos : Pos) (ctx : Ctx) (k : Kind) (body : Forest)
+    (ok : ctxOK ctx = true) (h : nodeOut ar pos ctx k body = .accept) :
+    nodeCore ar pos ctx k body = true := by
   cases k with
-  | stmt | block | loop | ompTarget | accEnterData => simp [nodeCore]
+  | stmt | astmt | block | loop | ompTarget => simp [nodeCore]
   | ompTaskwait =>
     have := guard_accept h
     simp only [nodeCore]
     exact any_mono plainPar_isOmpPar this
-  | ompSingle =>
+  | ompSingle nw =>
     have := guard_accept h
     simp only [Bool.and_eq_true, Bool.not_eq_true'] at this
     obtain ⟨⟨h1, h2⟩, h3⟩ := this
     simp only [nodeCore, Bool.and_eq_true, Bool.not_eq_true']
-    refine ⟨any_mono plainPar_isOmpPar h1, not_closelyIn_of_not_any ?_⟩
-    rw [List.any_eq_false] at h2 h3 ⊢
-    intro a ha
-    have := h2 a ha; have := h3 a ha
-    simp_all
+    refine ⟨any_mono plainPar_isOmpPar h1,
+      no_closely (p := fun a => isDoLike a || isSerial a || isTaskloop a) ok ?_ ?_ ?_⟩
+    · intro a ha; cases a <;> simp_all [isDoLike, isSerial, isTaskloop, isTask]
+    · intro a ha; simp [ha]
+    · rw [List.any_eq_false] at h2 h3 ⊢
+      intro a ha
+      have := h2 a ha; have := h3 a ha
+      simp_all
   | ompMaster =>
     have := guard_accept h
     simp only [Bool.and_eq_true, Bool.not_eq_true'] at this
     obtain ⟨⟨h1, h2⟩, h3⟩ := this
     simp only [nodeCore, Bool.and_eq_true, Bool.not_eq_true']
-    refine ⟨any_mono plainPar_isOmpPar h1, not_closelyIn_of_not_any ?_⟩
-    rw [List.any_eq_false] at h2 h3 ⊢
-    intro a ha
-    have := h2 a ha; have := h3 a ha
-    cases a <;> simp_all [isSerial, isDoLike, isTaskloop]
+    refine ⟨any_mono plainPar_isOmpPar h1,
+      no_closely (p := fun a => isDoLike a || isSerial a || isTaskloop a) ok ?_ ?_ ?_⟩
+    · intro a ha; cases a <;> simp_all [isDoLike, isSerial, isSingle, isTaskloop, isTask]
+    · intro a ha; simp [ha]
+    · rw [List.any_eq_false] at h2 h3 ⊢
+      intro a ha
+      have := h2 a ha; have := h3 a ha
+      simp_all
   | ompParallel =>
     have := guard_accept h
     simpa [nodeCore] using this
@@ -118,19 +237,32 @@ theorem nodeOut_core (ctx : Ctx) (k : Kind) (body : Forest) (h : nodeOut ctx k b
     simp only [Bool.and_eq_true, Bool.not_eq_true'] at this
     simp only [nodeCore, Bool.and_eq_true, Bool.not_eq_true']
     exact ⟨this.1, assoc_of_single_collapse this.2 hc⟩
+  | ompTeamsDPD c =>
+    obtain ⟨hg, hc⟩ := andThen_accept h
+    have := guard_accept hg
+    simp only [Bool.and_eq_true, Bool.not_eq_true'] at this
+    simp only [nodeCore, Bool.and_eq_true, Bool.not_eq_true']
+    exact ⟨⟨this.1.1, this.1.2⟩, assoc_of_single_collapse this.2 hc⟩
   | ompDo c =>
     obtain ⟨hg, hc⟩ := andThen_accept h
     have := guard_accept hg
     simp only [Bool.and_eq_true, Bool.not_eq_true'] at this
     obtain ⟨⟨h1, h2⟩, h3⟩ := this
     simp only [nodeCore, Bool.and_eq_true, Bool.not_eq_true']
-    exact ⟨⟨any_mono plainPar_isOmpPar h1, not_closelyIn_of_not_any h2⟩,
-           assoc_of_single_collapse h3 hc⟩
+    refine ⟨⟨any_mono plainPar_isOmpPar h1,
+      no_closely (p := fun a => isDoLike a || isSerial a || isTaskloop a) ok ?_ ?_ h2⟩,
+      assoc_of_single_collapse h3 hc⟩
+    · intro a ha; cases a <;> simp_all [isDoLike, isSerial, isTaskloop, isTask]
+    · intro a ha; simp [ha]
   | ompTaskloop =>
     have := guard_accept h
     simp only [Bool.and_eq_true] at this
     simp only [nodeCore, Bool.and_eq_true]
-    exact ⟨this.1, singleLoop_assoc this.2⟩
+    exact ⟨⟨any_mono plainPar_isOmpPar (ctxOK_serial_par ok this.1), this.1⟩, singleLoop_assoc this.2⟩
+  | ompTask =>
+    have hs := taskPlace_single (guard_accept h)
+    simp only [nodeCore, Bool.and_eq_true]
+    exact ⟨any_mono plainPar_isOmpPar (ctxOK_serial_par ok (any_mono single_isSerial hs)), hs⟩
   | ompLoop c =>
     obtain ⟨hg, hc⟩ := andThen_accept h
     have := guard_accept hg
@@ -138,37 +270,172 @@ theorem nodeOut_core (ctx : Ctx) (k : Kind) (body : Forest) (h : nodeOut ctx k b
     obtain ⟨⟨h1, h2⟩, h3⟩ := this
     simp only [nodeCore, Bool.and_eq_true, Bool.not_eq_true']
     exact ⟨⟨h2, h3⟩, assoc_of_single_collapse h1 hc⟩
-  | accParallel | accKernels | accData =>
+  | ompAtomic =>
     have := guard_accept h
     simpa [nodeCore] using this
+  | ompSimd =>
+    have := guard_accept h
+    simp only [Bool.and_eq_true, Bool.not_eq_true'] at this
+    simp only [nodeCore, Bool.and_eq_true, Bool.not_eq_true']
+    exact ⟨singleLoop_assoc this.1, this.2⟩
+  | ompDeclareTarget =>
+    have := guard_accept h
+    simp only [Bool.and_eq_true] at this
+    simp only [nodeCore, Bool.and_eq_true]
+    refine ⟨this.1, ?_⟩
+    cases pos <;> simp_all
+  | accParallel | accKernels | accData =>
+    have := guard_accept h
+    simp only [Bool.and_eq_true, Bool.not_eq_true'] at this
+    simpa [nodeCore] using this.1.1
   | accLoop c =>
     have := guard_accept h
     simp only [Bool.and_eq_true] at this
     simp only [nodeCore, Bool.and_eq_true]
-    exact ⟨this.1, collapseAcc_assoc _ _ this.2⟩
+    exact ⟨this.1.1.1, collapseAcc_assoc _ _ _ this.1.1.2⟩
+  | accAtomic =>
+    have := guard_accept h
+    simp only [Bool.and_eq_true] at this
+    simpa [nodeCore] using this.1.1
+  | accEnterData | accUpdate =>
+    have := guard_accept h
+    simp only [Bool.and_eq_true, Bool.not_eq_true'] at this
+    simpa [nodeCore] using this.1
+  | accRoutine =>
+    have := guard_accept h
+    simpa [nodeCore] using this
 
-theorem writer_core : ∀ (t : Forest) (ctx : Ctx), writer ctx t = .accept → coreOk ctx t = true := by
+/-- One node: collapsed nests of accepted loop directives are rectangular (a). -/
+theorem nodeOut_rect (ar : Env) (pos : Pos) (ctx : Ctx) (k : Kind) (body : Forest)
+    (h : nodeOut ar pos ctx k body = .accept) : nodeRect k body = true := by
+  cases k <;> simp only [nodeRect] <;> simp only [nodeOut] at h
+  · exact collapseOmp_rect _ _ _ (andThen_accept h).2
+  · exact collapseOmp_rect _ _ _ (andThen_accept h).2
+  · exact collapseOmp_rect _ _ _ (andThen_accept h).2
+  · exact collapseOmp_rect _ _ _ (andThen_accept h).2
+  · rename_i c
+    have := guard_accept h
+    simp only [Bool.and_eq_true] at this
+    rcases max_one_cases c with ⟨hc, _⟩ | hc
+    · subst hc; simp [rectNest]
+    · rw [hc] at this; exact collapseAcc_rect _ _ _ this.1.1.2
+
+/-- One node: an accepted OpenACC directive has no OpenMP ancestor (b). -/
+theorem nodeOut_acc_ctx (ar : Env) (pos : Pos) (ctx : Ctx) (k : Kind) (body : Forest)
+    (h : nodeOut ar pos ctx k body = .accept) (hk : isAcc k = true) : ctx.any isOmp = false := by
+  cases k <;> simp [isAcc] at hk <;> simp only [nodeOut] at h <;>
+    have := guard_accept h <;> simp only [Bool.and_eq_true, Bool.not_eq_true'] at this
+  · exact this.1.2
+  · exact this.1.2
+  · exact this.1.2
+  · exact this.1.2
+  · exact this.1.2
+  · exact this.2
+  · exact this.2
+  · have h1 := this.1
+    cases ctx <;> simp_all
+
+/-- One node: an accepted OpenACC region directive contains no OpenMP directive (b). -/
+theorem nodeOut_acc_body (ar : Env) (pos : Pos) (ctx : Ctx) (k : Kind) (body : Forest)
+    (h : nodeOut ar pos ctx k body = .accept) (hk : isAcc k = true) (hl : isLeaf k = false) :
+    containsOmp body = false := by
+  cases k <;> simp [isAcc] at hk <;> simp [isLeaf] at hl <;> simp only [nodeOut] at h <;>
+    have := guard_accept h <;> simp only [Bool.and_eq_true, Bool.not_eq_true'] at this <;>
+    exact this.2
+
+theorem containsOmp_cons_false {k : Kind} {body rest : Forest}
+    (h : containsOmp (.cons k body rest) = false) :
+    isOmp k = false ∧ (isLeaf k = false → containsOmp body = false) ∧ containsOmp rest = false := by
+  simp only [containsOmp, Bool.or_eq_false_iff, Bool.and_eq_false_iff, Bool.not_eq_false'] at h
+  refine ⟨h.1.1, ?_, h.2⟩
+  intro hl
+  rcases h.1.2 with h' | h'
+  · rw [hl] at h'; cases h'
+  · exact h'
+
+/-- The whole forest, any context that passed its own checks. -/
+theorem writerAux_spec (ar : Env) : ∀ (t : Forest) (pos : Pos) (ctx : Ctx),
+    writerAux ar pos ctx t = .accept → ctxOK ctx = true →
+    (ctx.any isAcc = true → containsOmp t = false) →
+    coreOk ar pos ctx t = true ∧ rectOk t = true ∧ mixOk ctx t = true := by
   intro t
   induction t with
-  | nil => intro ctx _; simp [coreOk]
+  | nil => intro pos ctx _ _ _; simp [coreOk, rectOk, mixOk]
   | cons k body rest ihb ihr =>
-    intro ctx h
-    simp only [writer] at h
+    intro pos ctx h ok hmix
+    simp only [writerAux] at h
     obtain ⟨h1, h23⟩ := andThen_accept h
     obtain ⟨h2, h3⟩ := andThen_accept h23
-    simp only [coreOk, Bool.and_eq_true]
-    exact ⟨⟨nodeOut_core ctx k body h1, ihb _ h2⟩, ihr _ h3⟩
+    have hcore := nodeOut_core ar pos ctx k body ok h1
+    have hrect := nodeOut_rect ar pos ctx k body h1
+    -- the node's mixing rule
+    have hnm : nodeMix ctx k = true := by
+      simp only [nodeMix, Bool.and_eq_true, Bool.not_eq_true', Bool.and_eq_false_iff]
+      constructor
+      · cases hA : ctx.any isAcc with
+        | false => exact Or.inr rfl
+        | true => exact Or.inl (containsOmp_cons_false (hmix hA)).1
+      · cases hk : isAcc k with
+        | false => exact Or.inl rfl
+        | true => exact Or.inr (nodeOut_acc_ctx ar pos ctx k body h1 hk)
+    -- the following siblings
+    have hrest := ihr (pos.next k) ctx h3 ok
+      (fun hA => (containsOmp_cons_false (hmix hA)).2.2)
+    -- the body
+    cases hl : isLeaf k with
+    | true =>
+      simp only [coreOk, rectOk, mixOk, hl, Bool.and_eq_true, Bool.and_true]
+      exact ⟨⟨hcore, hrest.1⟩, ⟨hrect, hrest.2.1⟩, ⟨hnm, hrest.2.2⟩⟩
+    | false =>
+      rw [hl] at h2
+      have ok' : ctxOK (k :: ctx) = true := by
+        simp only [ctxOK, Bool.and_eq_true]; exact ⟨nodeOut_ctxGuard h1, ok⟩
+      have hbody := ihb .first (k :: ctx) h2 ok' (by
+        intro hA
+        simp only [List.any_cons, Bool.or_eq_true] at hA
+        cases hk : isAcc k with
+        | true => exact nodeOut_acc_body ar pos ctx k body h1 hk hl
+        | false =>
+          rw [hk] at hA
+          rcases hA with hA | hA
+          · cases hA
+          · exact (containsOmp_cons_false (hmix hA)).2.1 hl)
+      simp only [coreOk, rectOk, mixOk, hl, Bool.and_eq_true]
+      exact ⟨⟨⟨hcore, hbody.1⟩, hrest.1⟩, ⟨⟨hrect, hbody.2.1⟩, hrest.2.1⟩, ⟨⟨hnm, hbody.2.2⟩, hrest.2.2⟩⟩
 
-theorem collapseOmp_no_crash (n : Nat) (body : Forest) (hne : loopsNonEmpty body = true) :
-    collapseOmp n body ≠ .crash := by
-  fun_induction collapseOmp n body with
+/-! ### the IndexError of `_validate_collapse_value` is unreachable by transformation histories -/
+
+/-- the `c` loops the collapse check will walk through have non-empty bodies (shapes that make the
+check raise `GenerationError` first are fine) -/
+def chainSafe : Nat → Forest → Bool
+  | 0, _ => true
+  | n+1, .cons (.loop _) body .nil =>
+    match body with
+    | .nil => false
+    | _ => chainSafe n body
+  | _+1, _ => true
+
+def collapseOf : Kind → Nat
+  | .ompDo c | .ompParallelDo c | .ompTeamsDPD c | .ompLoop c => c
+  | _ => 0
+
+/-- invariant of histories: every OpenMP loop directive is safe for its collapse value -/
+def safe : Forest → Bool
+  | .nil => true
+  | .cons k body rest => chainSafe (collapseOf k) body && safe body && safe rest
+
+theorem chainSafe_no_crash (n d : Nat) (f : Forest) (h : chainSafe n f = true) :
+    collapseOmp n d f ≠ .crash := by
+  fun_induction collapseOmp n d f with
   | case1 => simp
-  | case2 => simp [loopsNonEmpty] at hne
-  | case3 n d body hb ih =>
+  | case2 => simp [chainSafe] at h
+  | case3 n d dep body hr hne ih =>
     apply ih
-    simp only [loopsNonEmpty, Bool.and_eq_true] at hne
-    exact hne.1.2
+    cases body with
+    | nil => exact absurd rfl hne
+    | cons k b r => simpa [chainSafe] using h
   | case4 => simp
+  | case5 => simp
 
 theorem guard_ne_crash (b : Bool) : guard b ≠ .crash := by cases b <;> simp [guard]
 
@@ -176,81 +443,348 @@ theorem andThen_ne_crash {a b : Outcome} (ha : a ≠ .crash) (hb : b ≠ .crash)
     a.andThen b ≠ .crash := by
   cases a <;> cases b <;> simp_all [Outcome.andThen]
 
-theorem nodeOut_no_crash (ctx : Ctx) (k : Kind) (body : Forest) (h : loopsNonEmpty body = true) :
-    nodeOut ctx k body ≠ .crash := by
+theorem nodeOut_no_crash (ar : Env) (pos : Pos) (ctx : Ctx) (k : Kind) (body : Forest)
+    (h : chainSafe (collapseOf k) body = true) : nodeOut ar pos ctx k body ≠ .crash := by
   cases k <;> simp only [nodeOut] <;>
     first
     | exact guard_ne_crash _
-    | exact andThen_ne_crash (guard_ne_crash _) (collapseOmp_no_crash _ _ h)
+    | exact andThen_ne_crash (guard_ne_crash _) (chainSafe_no_crash _ _ _ h)
     | simp
 
-theorem writer_no_crash : ∀ (t : Forest) (ctx : Ctx), loopsNonEmpty t = true →
-    writer ctx t ≠ .crash := by
+theorem safe_no_crash (ar : Env) : ∀ (t : Forest) (pos : Pos) (ctx : Ctx), safe t = true →
+    writerAux ar pos ctx t ≠ .crash := by
   intro t
   induction t with
-  | nil => intro ctx _; simp [writer]
+  | nil => intro pos ctx _; simp [writerAux]
   | cons k body rest ihb ihr =>
-    intro ctx h
-    simp only [loopsNonEmpty, Bool.and_eq_true] at h
-    simp only [writer]
-    exact andThen_ne_crash (nodeOut_no_crash ctx k body h.1.2)
-      (andThen_ne_crash (ihb _ h.1.2) (ihr _ h.2))
+    intro pos ctx h
+    simp only [safe, Bool.and_eq_true] at h
+    simp only [writerAux]
+    refine andThen_ne_crash (nodeOut_no_crash ar pos ctx k body h.1.1) (andThen_ne_crash ?_ (ihr _ _ h.2))
+    cases isLeaf k
+    · exact ihb _ _ h.1.2
+    · simp
+
+/-- what `ParallelLoopTrans.validate` has walked through is safe for the writer -/
+theorem chainLen_chainSafe : ∀ (c : Nat) (f : Forest) (m : Nat), chainLen f = some m → c ≤ m →
+    chainSafe c f = true := by
+  intro c
+  induction c with
+  | zero => intro f m _ _; simp [chainSafe]
+  | succ c ih =>
+    intro f m hm hc
+    cases f with
+    | nil => simp [chainLen] at hm; omega
+    | cons k body rest =>
+      cases k with
+      | loop d =>
+        cases rest with
+        | cons k' b' r' => simp [chainSafe]
+        | nil =>
+          cases body with
+          | nil => simp [chainLen] at hm
+          | cons k2 b2 r2 =>
+            simp only [chainLen, Option.map_eq_some_iff] at hm
+            obtain ⟨m', hm', rfl⟩ := hm
+            simp only [chainSafe]
+            exact ih _ m' hm' (by omega)
+      | _ => simp [chainLen] at hm; omega
+
+/-- a local rewrite that keeps the invariant -/
+def Good (g : Forest → Option Forest) : Prop :=
+  ∀ f f', g f = some f' →
+    f' ≠ .nil ∧ (safe f = true → safe f' = true) ∧ (∀ n, chainSafe n f = true → chainSafe n f' = true)
+
+theorem chainSafe_of_rest_ne_nil (n : Nat) (k : Kind) (b r : Forest) (h : r ≠ .nil) :
+    chainSafe n (.cons k b r) = true := by
+  cases n with
+  | zero => simp [chainSafe]
+  | succ n =>
+    cases r with
+    | nil => exact absurd rfl h
+    | cons k' b' r' => cases k <;> simp [chainSafe]
+
+theorem chainSafe_of_not_loop (n : Nat) (k : Kind) (b r : Forest) (h : ∀ d, k ≠ .loop d) :
+    chainSafe n (.cons k b r) = true := by
+  cases n with
+  | zero => simp [chainSafe]
+  | succ n =>
+    cases k with
+    | loop d => exact absurd rfl (h d)
+    | _ => simp [chainSafe]
+
+theorem good_atSib (i : Nat) {g : Forest → Option Forest} (hg : Good g) : Good (atSib i g) := by
+  induction i with
+  | zero => intro f f' h; exact hg f f' (by simpa [atSib] using h)
+  | succ i ih =>
+    intro f f' h
+    cases f with
+    | nil => simp [atSib] at h
+    | cons k b r =>
+      simp only [atSib, Option.map_eq_some_iff] at h
+      obtain ⟨r', hr', rfl⟩ := h
+      obtain ⟨hne, hs, _⟩ := ih r r' hr'
+      refine ⟨by simp, ?_, fun n _ => chainSafe_of_rest_ne_nil n k b r' hne⟩
+      intro hsafe
+      simp only [safe, Bool.and_eq_true] at hsafe ⊢
+      exact ⟨hsafe.1, hs hsafe.2⟩
+
+theorem good_inBody {g : Forest → Option Forest} (hg : Good g) : Good (inBody g) := by
+  intro f f' h
+  cases f with
+  | nil => simp [inBody] at h
+  | cons k b r =>
+    simp only [inBody] at h
+    split at h
+    · cases h
+    · simp only [Option.map_eq_some_iff] at h
+      obtain ⟨b', hb', rfl⟩ := h
+      obtain ⟨hne, hs, hc⟩ := hg b b' hb'
+      refine ⟨by simp, ?_, ?_⟩
+      · intro hsafe
+        simp only [safe, Bool.and_eq_true] at hsafe ⊢
+        exact ⟨⟨hc _ hsafe.1.1, hs hsafe.1.2⟩, hsafe.2⟩
+      · intro n hn
+        cases n with
+        | zero => simp [chainSafe]
+        | succ n =>
+          cases k with
+          | loop d =>
+            cases r with
+            | cons k' b2 r' => simp [chainSafe]
+            | nil =>
+              cases b' with
+              | nil => exact absurd rfl hne
+              | cons k2 b2 r2 =>
+                cases b with
+                | nil => simp [chainSafe] at hn
+                | cons k3 b3 r3 =>
+                  simp only [chainSafe] at hn ⊢
+                  exact hc n hn
+          | _ => simp [chainSafe]
+
+theorem good_modifyAt (p : List Nat) {g : Forest → Option Forest} (hg : Good g) :
+    Good (modifyAt p g) := by
+  induction p with
+  | nil => exact hg
+  | cons i p ih => exact good_atSib i (good_inBody ih)
+
+theorem safe_splitSibs : ∀ (n : Nat) (f s post : Forest), splitSibs n f = some (s, post) →
+    safe f = true → safe s = true ∧ safe post = true := by
+  intro n
+  induction n with
+  | zero => intro f s post h hs; simp [splitSibs] at h; obtain ⟨rfl, rfl⟩ := h; simp [safe, hs]
+  | succ n ih =>
+    intro f s post h hs
+    cases f with
+    | nil => simp [splitSibs] at h
+    | cons k b r =>
+      simp only [splitSibs, Option.map_eq_some_iff] at h
+      obtain ⟨⟨s', post'⟩, hsp, heq⟩ := h
+      simp only [Prod.mk.injEq] at heq
+      obtain ⟨rfl, rfl⟩ := heq
+      simp only [safe, Bool.and_eq_true] at hs ⊢
+      obtain ⟨h1, h2⟩ := ih r s' post' hsp hs.2
+      exact ⟨⟨hs.1, h1⟩, h2⟩
+
+theorem good_wrapRegion (k : Kind) (len : Nat) : Good (wrapRegion k len) := by
+  intro f f' h
+  simp only [wrapRegion] at h
+  split at h
+  · rename_i hk
+    simp only [Bool.and_eq_true] at hk
+    simp only [Option.map_eq_some_iff] at h
+    obtain ⟨⟨seg, post⟩, hsp, rfl⟩ := h
+    have hnl : ∀ d, k ≠ .loop d := by intro d hd; subst hd; simp [isRegionKind] at hk
+    have hc0 : collapseOf k = 0 := by cases k <;> simp_all [isRegionKind, collapseOf]
+    refine ⟨by simp, ?_, fun n _ => chainSafe_of_not_loop n k seg post hnl⟩
+    intro hs
+    obtain ⟨h1, h2⟩ := safe_splitSibs _ _ _ _ hsp hs
+    simp [safe, hc0, chainSafe, h1, h2]
+  · cases h
+
+theorem transCollapseOk_chainSafe {c : Nat} {f : Forest} (h : transCollapseOk c f = true) :
+    chainSafe c f = true := by
+  simp only [transCollapseOk, Bool.or_eq_true, Bool.and_eq_true, beq_iff_eq, decide_eq_true_eq] at h
+  rcases h with rfl | ⟨_, h⟩
+  · simp [chainSafe]
+  · split at h
+    · rename_i m hm
+      exact chainLen_chainSafe c f m hm (by simpa using h)
+    · cases h
+
+theorem good_wrapLoop (k : Kind) : Good (wrapLoop k) := by
+  intro f f' h
+  simp only [wrapLoop] at h
+  split at h
+  · rename_i c d b r hk
+    split at h
+    · rename_i htc
+      simp only [Option.some.injEq] at h
+      subst h
+      have hnl : ∀ d', k ≠ .loop d' := by intro d' hd; subst hd; simp [loopDirCollapse] at hk
+      have hc : chainSafe (collapseOf k) (.cons (.loop d) b .nil) = true := by
+        cases k <;> simp [loopDirCollapse] at hk <;> simp only [collapseOf]
+        all_goals first
+          | (subst hk; exact transCollapseOk_chainSafe htc)
+          | simp [chainSafe]
+      refine ⟨by simp, ?_, fun n _ => chainSafe_of_not_loop n k _ r hnl⟩
+      intro hs
+      simp only [safe, Bool.and_eq_true] at hs ⊢
+      simp only [collapseOf, chainSafe] at hs
+      exact ⟨⟨hc, ⟨by simp [collapseOf, chainSafe], hs.1.2⟩, trivial⟩, hs.2⟩
+    · cases h
+  · cases h
+
+theorem good_insertLeaf (k : Kind) : Good (insertLeaf k) := by
+  intro f f' h
+  simp only [insertLeaf] at h
+  split at h
+  · rename_i hk
+    simp only [Option.some.injEq] at h
+    subst h
+    have hnl : ∀ d, k ≠ .loop d := by intro d hd; subst hd; simp [isStandalone] at hk
+    have hc0 : collapseOf k = 0 := by cases k <;> simp_all [isStandalone, collapseOf]
+    refine ⟨by simp, ?_, fun n _ => chainSafe_of_not_loop n k .nil f hnl⟩
+    intro hs
+    simp [safe, hc0, chainSafe, hs]
+  · cases h
+
+theorem applyOp_safe (op : Op) (t t' : Forest) (h : applyOp op t = some t') (hs : safe t = true) :
+    safe t' = true := by
+  cases op with
+  | region k path lo len =>
+    exact (good_modifyAt path (good_atSib lo (good_wrapRegion k len)) t t' h).2.1 hs
+  | loopDir k path idx =>
+    exact (good_modifyAt path (good_atSib idx (good_wrapLoop k)) t t' h).2.1 hs
+  | leaf k path idx =>
+    exact (good_modifyAt path (good_atSib idx (good_insertLeaf k)) t t' h).2.1 hs
+
+theorem dirFree_safe : ∀ t : Forest, dirFree t = true → safe t = true := by
+  intro t
+  induction t with
+  | nil => intro _; simp [safe]
+  | cons k body rest ihb ihr =>
+    intro h
+    simp only [dirFree, Bool.and_eq_true, Bool.not_eq_true', Bool.or_eq_false_iff] at h
+    have hc0 : collapseOf k = 0 := by cases k <;> simp_all [isOmp, collapseOf]
+    simp [safe, hc0, chainSafe, ihb h.1.2, ihr h.2]
+
+theorem reachable_safe {t : Forest} (h : Reachable t) : safe t = true := by
+  induction h with
+  | start t hd => exact dirFree_safe t hd
+  | step t t' op _ hap ih => exact applyOp_safe op t t' hap ih
 
 /-! ## The property -/
 
-/-- **Main theorem** (all trees, all depths/widths/collapse values): whatever the writer's
-code-generation-time checks accept satisfies every core nesting / association rule — loop and
-worksharing directives inside a parallel region, no nested parallel regions, no worksharing /
-master construct closely nested in a worksharing / master / taskloop region, nothing but
-parallel/loop inside an `omp loop` region, collapse(n) and every loop-associated directive over
-perfectly nested loops, taskloop inside single/master, no OpenACC compute/data construct inside a
-compute construct, `acc loop` inside a compute construct. -/
-theorem C10_writer_guards (t : Forest) (h : writerAccepts t = true) : coreValid t := by
-  unfold writerAccepts at h
-  exact writer_core t [] (by simpa using h)
+/-- **Main theorem** (all trees): whatever the writer's code-generation-time checks accept satisfies
+every nesting / association rule (`coreOk`: loop, worksharing, task and taskwait constructs inside a
+parallel region; no nested parallel regions; no worksharing / master construct closely nested in a
+worksharing / master / taskloop / task region; teams strictly inside target; nothing but
+parallel/loop/simd inside an `omp loop` region and nothing but simd/loop/atomic inside a simd region;
+collapse(n) and every loop-associated directive over perfectly nested loops; atomic over one update
+statement; taskloop/task inside single(/master); declarative directives at the top of the routine;
+no OpenACC compute/data/enter-data/update construct inside a compute construct; `acc loop` inside a
+compute construct or in an `acc routine`; no compute or OpenMP construct in an `acc routine`), has
+rectangular collapsed nests (`rectOk`) and does not nest OpenMP in OpenACC or vice versa (`mixOk`). -/
+theorem C10_writer_guards (t : Forest) (h : writerAccepts t = true) : guardedValid t := by
+  unfold writerAccepts writer at h
+  have := writerAux_spec (envOf t) t .first [] (by simpa using h) rfl (by simp)
+  exact this
 
-/-- The writer's outcome on the modelled node set is acceptance or a `GenerationError`; the only
-other exception (`IndexError` in `_validate_collapse_value`) needs a collapsed loop with an empty
-body, which no transformation history produces. -/
-theorem C10_total (t : Forest) (h : loopsNonEmpty t = true) :
-    writer [] t = .accept ∨ writer [] t = .genError := by
-  have := writer_no_crash t [] h
-  cases hw : writer [] t <;> simp_all
+/-- The `IndexError` of `_validate_collapse_value` (the only non-`GenerationError` exception of the
+modelled checks) is the REAL outcome on some trees … -/
+theorem C10_crash_exists :
+    writer (.cons (.ompParallelDo 2) (.cons (.loop 0) (.cons (.loop 0) .nil .nil) .nil) .nil) = .crash := by
+  decide
+
+/-- … exactly when a loop the collapse check walks through is empty (`safe` fails) … -/
+theorem C10_crash_needs_unsafe (t : Forest) (h : writer t = .crash) : safe t = false := by
+  cases hs : safe t with
+  | false => rfl
+  | true => exact absurd h (safe_no_crash (envOf t) t .first [] hs)
+
+/-- … in particular it needs an empty loop body … -/
+theorem loopsNonEmpty_body {k : Kind} {b r : Forest} (h : loopsNonEmpty (.cons k b r) = true) :
+    loopsNonEmpty b = true := by
+  simp only [loopsNonEmpty, Bool.and_eq_true] at h
+  exact h.1.2
+
+theorem chainSafe_of_nonEmpty : ∀ (n : Nat) (f : Forest), loopsNonEmpty f = true → chainSafe n f = true := by
+  intro n
+  induction n with
+  | zero => intro f _; simp [chainSafe]
+  | succ n ih =>
+    intro f h
+    cases f with
+    | nil => simp [chainSafe]
+    | cons k b r =>
+      cases k with
+      | loop d =>
+        cases r with
+        | cons k' b' r' => simp [chainSafe]
+        | nil =>
+          cases b with
+          | nil => simp [loopsNonEmpty] at h
+          | cons k2 b2 r2 =>
+            simp only [chainSafe]
+            exact ih _ (loopsNonEmpty_body h)
+      | _ => simp [chainSafe]
+
+theorem nonEmpty_safe : ∀ t : Forest, loopsNonEmpty t = true → safe t = true := by
+  intro t
+  induction t with
+  | nil => intro _; simp [safe]
+  | cons k body rest ihb ihr =>
+    intro h
+    have h' := h
+    simp only [loopsNonEmpty, Bool.and_eq_true] at h'
+    simp only [safe, Bool.and_eq_true]
+    exact ⟨⟨chainSafe_of_nonEmpty _ _ h'.1.2, ihb h'.1.2⟩, ihr h'.2⟩
+
+theorem C10_crash_needs_empty_loop (t : Forest) (h : writer t = .crash) : loopsNonEmpty t = false := by
+  cases hs : loopsNonEmpty t with
+  | false => rfl
+  | true =>
+    have := C10_crash_needs_unsafe t h
+    rw [nonEmpty_safe t hs] at this
+    cases this
+
+/-- … and **no history of accepted transformations reaches it**: for every tree obtained from a
+directive-free program (empty loops allowed) by any number of region / loop-directive / stand-alone
+directive insertions accepted by the transformations (`ParallelLoopTrans.validate` itself raises
+`IndexError`, i.e. does not accept, when its collapse walk meets an empty loop), the writer either
+accepts or raises `GenerationError`. -/
+theorem C10_total (t : Forest) (h : Reachable t) : writer t = .accept ∨ writer t = .genError := by
+  have := safe_no_crash (envOf t) t .first [] (reachable_safe h)
+  unfold writer
+  cases hw : writerAux (envOf t) .first [] t <;> simp_all
 
 /-- The hand-written `writer` agrees with the truth table obtained by running the real
 `validate_global_constraints` of every node on the catalogue of small nestings
 (`Gen/Directives.lean`, regenerated from the working tree on every run). -/
-theorem C10_table_agrees : Gen.tableOk (fun t => writer [] t) = true := by decide +kernel
+theorem C10_table_agrees : Gen.tableOk writer = true := by decide +kernel
 
-/-- The full statement of the property on the model: accepted ⇒ core rules ∧ rectangular collapsed
-nests ∧ no OpenMP/OpenACC mixing. -/
+/-- The full statement of the property on the model. -/
 def C10_statement : Prop := ∀ t, writerAccepts t = true → specValid t
 
 open Kind Forest in
-/-- `!$omp parallel do collapse(2)` over `do i / do j = 1, i`: accepted, not rectangular. -/
-def witnessRect : Forest :=
-  cons (ompParallelDo 2) (cons (loop 0) (cons (loop 1) (cons stmt nil nil) nil) nil) nil
+/-- `!$omp parallel` / `!$omp single nowait`: accepted; the writer prints `nowait` on the opening
+line, which is not Fortran OpenMP 4.5 syntax (gfortran 12: "Failed to match clause"). -/
+def witnessNowait : Forest :=
+  cons ompParallel (cons (ompSingle true) (cons stmt nil nil) nil) nil
 
-open Kind Forest in
-/-- `!$acc parallel` around `!$omp parallel do`: accepted, mixes the two APIs. -/
-def witnessMix : Forest :=
-  cons accParallel (cons (ompParallelDo 0) (cons (loop 0) (cons stmt nil nil) nil) nil) nil
-
-/-- Known finding C10-collapse-nonrectangular: the statement fails on the model. -/
-theorem C10_counterexample_rect : ¬ C10_statement := by
+/-- Known finding C10-single-nowait-placement: the full statement fails on the model. -/
+theorem C10_counterexample_nowait : ¬ C10_statement := by
   intro h
-  have := h witnessRect (by decide)
-  exact absurd this.2.1 (by decide)
+  have := h witnessNowait (by decide)
+  exact absurd this.2 (by decide)
 
-/-- Known finding C10-omp-acc-mixing: a second, independent counterexample. -/
-theorem C10_counterexample_mix : writerAccepts witnessMix = true ∧ ¬ specValid witnessMix := by
-  refine ⟨by decide, fun h => absurd h.2.2 (by decide)⟩
-
-/-- What is proved instead of `C10_statement`: outside the two finding classes (side conditions
-decidable and satisfiable, see the examples) accepted trees satisfy the whole specification. -/
+/-- What is proved instead of `C10_statement`: outside that finding class (side condition decidable
+and satisfiable, see the examples) accepted trees satisfy the whole specification. -/
 theorem C10_writer_guards_partial (t : Forest) (h : writerAccepts t = true)
-    (hrect : rectOk t = true) (hmix : mixOk [] t = true) : specValid t :=
-  ⟨C10_writer_guards t h, hrect, hmix⟩
+    (hnw : nowaitOk t = true) : specValid t :=
+  ⟨C10_writer_guards t h, hnw⟩
 
 /-! ## non-vacuity and sanity evaluations -/
 section examples
@@ -260,40 +794,61 @@ open Kind Forest
 def nest2 : Forest := cons (loop 0) (cons (loop 0) (cons stmt nil nil) nil) nil
 /-- `do k; do j; s; enddo; s; enddo` -/
 def imperfect : Forest := cons (loop 0) (cons (loop 0) (cons stmt nil nil) (cons stmt nil nil)) nil
+/-- `do i; do j = 1, i; s` -/
+def triangular : Forest := cons (loop 0) (cons (loop 1) (cons stmt nil nil) nil) nil
 
 /-- a valid `parallel { do collapse(2) }` nest is accepted and satisfies the whole spec
 (hypotheses of `C10_writer_guards` and `C10_writer_guards_partial` are satisfiable). -/
 example : writerAccepts (cons ompParallel (cons (ompDo 2) nest2 nil) nil) = true := by decide
-example : coreOk [] (cons ompParallel (cons (ompDo 2) nest2 nil) nil) = true
-    ∧ rectOk (cons ompParallel (cons (ompDo 2) nest2 nil) nil) = true
-    ∧ mixOk [] (cons ompParallel (cons (ompDo 2) nest2 nil) nil) = true := by decide
-example : loopsNonEmpty (cons ompParallel (cons (ompDo 2) nest2 nil) nil) = true := by decide
+example : nowaitOk (cons ompParallel (cons (ompDo 2) nest2 nil) nil) = true := by decide
 example : writerAccepts (cons accParallel (cons (accLoop 2) nest2 nil) nil) = true := by decide
-example : writerAccepts (cons ompParallel (cons ompSingle (cons ompTaskloop nest2 nil) nil) nil) = true := by
+example : writerAccepts (cons ompParallel (cons (ompSingle false) (cons ompTaskloop nest2 nil) nil) nil) = true := by
   decide
--- the three probed histories are refused
+example : writerAccepts (cons ompParallel (cons (ompSingle false) (cons ompTask nest2 nil) nil) nil) = true := by
+  decide
+example : writerAccepts (cons ompTarget (cons (ompTeamsDPD 2) nest2 nil) nil) = true := by decide
+example : writerAccepts (cons accRoutine nil (cons (accLoop 0) nest2 nil)) = true := by decide
+example : writerAccepts (cons ompDeclareTarget nil (cons accRoutine nil nest2)) = true := by decide
+example : writerAccepts (cons (ompParallelDo 0) (cons (loop 0) (cons ompAtomic (cons astmt nil nil) nil) nil) nil)
+    = true := by decide
+-- the three histories probed while designing the check are refused
 /-- orphan `omp do` inside a `parallel do` on the outer loop -/
-example : writer [] (cons (ompParallelDo 0) (cons (loop 0) (cons (ompDo 0) nest2 nil) nil) nil)
+example : writer (cons (ompParallelDo 0) (cons (loop 0) (cons (ompDo 0) nest2 nil) nil) nil)
     = .genError := by decide
 /-- `parallel` around a `parallel do` -/
-example : writer [] (cons ompParallel (cons (ompParallelDo 0) nest2 nil) nil) = .genError := by decide
+example : writer (cons ompParallel (cons (ompParallelDo 0) nest2 nil) nil) = .genError := by decide
 /-- `collapse(2)` over a nest made imperfect -/
-example : writer [] (cons ompParallel (cons (ompDo 2) imperfect nil) nil) = .genError := by decide
--- refusals added by the fixes
-example : writer [] (cons ompParallel (cons (ompDo 0) (cons (loop 0) (cons (ompDo 0) nest2 nil) nil) nil) nil)
+example : writer (cons ompParallel (cons (ompDo 2) imperfect nil) nil) = .genError := by decide
+-- refusals added by the committed fixes
+example : writer (cons ompParallel (cons (ompDo 0) (cons (loop 0) (cons (ompDo 0) nest2 nil) nil) nil) nil)
     = .genError := by decide
-example : writer [] (cons ompParallel (cons (ompLoop 2) imperfect nil) nil) = .genError := by decide
-example : writer [] (cons accParallel (cons (accLoop 2) imperfect nil) nil) = .genError := by decide
-example : writer [] (cons accParallel (cons accKernels nest2 nil) nil) = .genError := by decide
-example : writer [] (cons ompParallel (cons ompSingle (cons ompTaskloop (cons ompTaskloop nest2 nil) nil) nil) nil)
+example : writer (cons ompParallel (cons (ompLoop 2) imperfect nil) nil) = .genError := by decide
+example : writer (cons accParallel (cons (accLoop 2) imperfect nil) nil) = .genError := by decide
+example : writer (cons accParallel (cons accKernels nest2 nil) nil) = .genError := by decide
+-- refusals added by the candidate fixes (a)–(d): the former known findings and the new kinds
+example : writer (cons (ompParallelDo 2) triangular nil) = .genError := by decide
+example : writer (cons accParallel (cons (accLoop 2) triangular nil) nil) = .genError := by decide
+example : writer (cons accParallel (cons (ompParallelDo 0) nest2 nil) nil) = .genError := by decide
+example : writer (cons ompParallel (cons accKernels nest2 nil) nil) = .genError := by decide
+example : writer (cons ompTarget (cons (ompLoop 0) (cons (loop 0) (cons (ompTeamsDPD 0) nest2 nil) nil) nil) nil)
     = .genError := by decide
--- the IndexError case
-example : writer [] (cons (ompParallelDo 2) (cons (loop 0) (cons (loop 0) nil nil) nil) nil) = .crash := by
-  decide
+example : writer (cons ompSimd (cons (loop 0) (cons ompTarget nest2 nil) nil) nil) = .genError := by decide
+example : writer (cons stmt nil (cons accRoutine nil nest2)) = .genError := by decide
+example : writer (cons accRoutine nil (cons accParallel nest2 nil)) = .genError := by decide
+example : writer (cons accKernels (cons accUpdate nil nest2) nil) = .genError := by decide
 -- the spec rejects what the writer rejects here, and more
-example : coreOk [] (cons (ompDo 0) nest2 nil) = false := by decide
-example : rectOk witnessRect = false := by decide
-example : mixOk [] witnessMix = false := by decide
+example : coreOk ⟨false, false⟩ .first [] (cons (ompDo 0) nest2 nil) = false := by decide
+example : rectOk (cons (ompParallelDo 2) triangular nil) = false := by decide
+example : mixOk [] (cons accParallel (cons (ompParallelDo 0) nest2 nil) nil) = false := by decide
+example : nowaitOk witnessNowait = false := by decide
+-- transformations: a history and its result; the collapse walk refuses an empty loop
+example : applyOp (.loopDir (ompDo 2) [] 0) nest2 = some (cons (ompDo 2) nest2 nil) := by decide
+example : applyOp (.region ompParallel [] 0 1) (cons (ompDo 2) nest2 nil)
+    = some (cons ompParallel (cons (ompDo 2) nest2 nil) nil) := by decide
+example : applyOp (.loopDir (ompDo 2) [] 0) (cons (loop 0) (cons (loop 0) nil nil) nil) = none := by decide
+example : Reachable (cons ompParallel (cons (ompDo 2) nest2 nil) nil) :=
+  .step (cons (ompDo 2) nest2 nil) _ (.region ompParallel [] 0 1)
+    (.step nest2 _ (.loopDir (ompDo 2) [] 0) (.start nest2 (by decide)) (by decide)) (by decide)
 end examples
 
 end C10
